@@ -568,11 +568,36 @@ func (w *World) IsMutexCall(s ast.Stmt) bool {
 	return false
 }
 
-// ReturnsError: block consists (after mutex calls) of one `return <non-nil expr>`.
+// IsLogCall: an expression statement calling a method of *zap.Logger (logging.Logger.Error(...) etc.).
+func (w *World) IsLogCall(s ast.Stmt) bool {
+	es, ok := s.(*ast.ExprStmt)
+	if !ok {
+		return false
+	}
+	c, ok := es.X.(*ast.CallExpr)
+	if !ok {
+		return false
+	}
+	fn := w.Callee(c)
+	return fn != nil && fn.Pkg() != nil && fn.Pkg().Path() == "go.uber.org/zap"
+}
+
+// BodyIs compares the printed body of a small helper function with the text the model was written against
+// (white space normalised). Fail closed: any edit of the helper must be looked at.
+func (w *World) BodyIs(pkgPath, recv, name, want string) {
+	fd := w.FuncDecl(pkgPath, recv, name)
+	norm := func(s string) string { return strings.Join(strings.Fields(strings.ReplaceAll(s, ";", " ")), " ") }
+	got := norm(w.Src(fd.Body))
+	if got != norm(want) {
+		w.Die(fd.Pos(), "%s.%s: body changed.\n  have: %s\n  want: %s", recv, name, got, norm(want))
+	}
+}
+
+// ReturnsError: block consists (after mutex and logging calls) of one `return <non-nil expr>`.
 func (w *World) ReturnsError(b *ast.BlockStmt) bool {
 	var rest []ast.Stmt
 	for _, s := range b.List {
-		if !w.IsMutexCall(s) {
+		if !w.IsMutexCall(s) && !w.IsLogCall(s) {
 			rest = append(rest, s)
 		}
 	}
